@@ -375,7 +375,10 @@ class Run:
             "wall_s": round(time.time() - self.t0, 2), "violations": len(self.violations),
         }
         os.makedirs(os.path.join(VERIF, "evidence"), exist_ok=True)
-        with open(os.path.join(VERIF, "evidence", f"{self.prop}.json"), "w") as f:
+        evpath = os.path.join(VERIF, "evidence", f"{self.prop}.json")
+        if self.prop == "EXTRA":       # outside the manifest: its coverage record lives next to the design notes
+            evpath = os.path.join(VERIF, "design", "EXTRA.evidence.json")
+        with open(evpath, "w") as f:
             json.dump(ev, f, indent=1, default=str)
         for key, what in self.known_hits:
             print(f"KNOWN-FINDING: property={self.prop} {key}: {what}")
